@@ -75,7 +75,8 @@ func (g genArtefact) describe() string {
 type genModel struct {
 	p *Prog
 	// bind: parameters of a writing helper bound to the arguments of the call site under analysis
-	bind map[*ssa.Parameter]ssa.Value
+	bind      map[*ssa.Parameter]ssa.Value
+	listDepth int
 }
 
 // deref replaces a bound parameter by the caller's argument.
@@ -609,6 +610,50 @@ func (g *genModel) bytesExpr(v ssa.Value, depth int) ([]tmplPart, error) {
 // listExpr resolves a []string accumulated in a range over a decoded JSON list.
 func (g *genModel) listExpr(v ssa.Value) (*projection, error) {
 	v = g.deref(v)
+	// the list is what a helper returns (ids := activeIDs(data.Exceptions); a, d := data.idsByStatus()):
+	// the helper's returned accumulator, with its parameters bound to this call's arguments
+	{
+		var call *ssa.Call
+		idx := 0
+		switch t := v.(type) {
+		case *ssa.Call:
+			call = t
+		case *ssa.Extract:
+			call, _ = t.Tuple.(*ssa.Call)
+			idx = t.Index
+		}
+		if call != nil {
+			if h := call.Call.StaticCallee(); h != nil && g.p.InModule(h) && len(h.Blocks) > 0 && g.listDepth < 4 {
+				var rets []ssa.Value
+				for _, b := range h.Blocks {
+					if ret, ok := b.Instrs[len(b.Instrs)-1].(*ssa.Return); ok && idx < len(ret.Results) {
+						rets = append(rets, ret.Results[idx])
+					}
+				}
+				if len(rets) == 1 {
+					if g.bind == nil {
+						g.bind = map[*ssa.Parameter]ssa.Value{}
+					}
+					var added []*ssa.Parameter
+					for i, prm := range h.Params {
+						if i < len(call.Call.Args) {
+							if _, had := g.bind[prm]; !had {
+								g.bind[prm] = call.Call.Args[i]
+								added = append(added, prm)
+							}
+						}
+					}
+					g.listDepth++
+					pr, err := g.listExpr(rets[0])
+					g.listDepth--
+					for _, prm := range added {
+						delete(g.bind, prm)
+					}
+					return pr, err
+				}
+			}
+		}
+	}
 	phi, ok := v.(*ssa.Phi)
 	if !ok {
 		return nil, fmt.Errorf("%s: id list is not accumulated in a loop (%T)", g.p.pos(v.Pos()), v)
@@ -720,21 +765,14 @@ func (g *genModel) listExpr(v ssa.Value) (*projection, error) {
 		return nil, fmt.Errorf("append block does not return to the loop header")
 	}
 	pr.ElemField = jsonName(elemField)
-	// src = load of field F of the decoded document
-	ld, ok := src.(*ssa.UnOp)
-	if !ok || ld.Op != token.MUL {
-		return nil, fmt.Errorf("ranged list is not a field of the decoded document")
-	}
-	fa, ok := ld.X.(*ssa.FieldAddr)
-	if !ok {
-		return nil, fmt.Errorf("ranged list is not a field of the decoded document")
-	}
-	doc, ok := fa.X.(*ssa.Alloc)
-	if !ok {
-		return nil, fmt.Errorf("decoded document is not a local variable")
+	// src = field F of the decoded document (directly, or through by-value copies, bound parameters and a
+	// loader helper that returns the document)
+	doc, fieldIdx, err := g.docOfList(src, 0)
+	if err != nil {
+		return nil, err
 	}
 	st := doc.Type().Underlying().(*types.Pointer).Elem().Underlying().(*types.Struct)
-	pr.ListField = jsonName(st.Field(fa.Field))
+	pr.ListField = jsonName(st.Field(fieldIdx))
 	file, err := g.decodedFrom(doc)
 	if err != nil {
 		return nil, err
@@ -864,6 +902,97 @@ func loopBody(hdr *ssa.BasicBlock) []*ssa.BasicBlock {
 
 // decodedFrom: doc is filled by exactly one (*json.Decoder).Decode(&doc) whose decoder reads the file
 // opened with a constant name; no field of doc is stored otherwise.
+// docOfList: src is field #f of a struct that is (a copy of) a locally decoded document; returns that
+// document's allocation and f.
+func (g *genModel) docOfList(src ssa.Value, d int) (*ssa.Alloc, int, error) {
+	src = g.deref(src)
+	switch t := src.(type) {
+	case *ssa.UnOp:
+		if fa, ok := t.X.(*ssa.FieldAddr); ok && t.Op == token.MUL {
+			doc, err := g.docFromPtr(fa.X, d+1)
+			return doc, fa.Field, err
+		}
+	case *ssa.Field:
+		doc, err := g.docFromVal(t.X, d+1)
+		return doc, t.Field, err
+	}
+	return nil, 0, fmt.Errorf("ranged list is not a field of the decoded document")
+}
+
+func (g *genModel) docFromPtr(ptr ssa.Value, d int) (*ssa.Alloc, error) {
+	if d > 8 {
+		return nil, fmt.Errorf("decoded document is handed on too many times to follow")
+	}
+	ptr = g.deref(ptr)
+	al, ok := ptr.(*ssa.Alloc)
+	if !ok {
+		return nil, fmt.Errorf("decoded document is not a local variable")
+	}
+	// a by-value copy (a spilled parameter or result): the value it was filled from
+	var whole ssa.Value
+	n := 0
+	for _, r := range *al.Referrers() {
+		if st, ok := r.(*ssa.Store); ok && st.Addr == ssa.Value(al) {
+			whole = st.Val
+			n++
+		}
+	}
+	if n == 1 {
+		return g.docFromVal(whole, d+1)
+	}
+	if n > 1 {
+		return nil, fmt.Errorf("decoded document is assigned more than once")
+	}
+	return al, nil
+}
+
+func (g *genModel) docFromVal(v ssa.Value, d int) (*ssa.Alloc, error) {
+	if d > 8 {
+		return nil, fmt.Errorf("decoded document is handed on too many times to follow")
+	}
+	v = g.deref(v)
+	switch t := v.(type) {
+	case *ssa.UnOp:
+		if t.Op == token.MUL {
+			return g.docFromPtr(t.X, d+1)
+		}
+	case *ssa.Extract, *ssa.Call:
+		var call *ssa.Call
+		idx := 0
+		if ex, ok := t.(*ssa.Extract); ok {
+			call, _ = ex.Tuple.(*ssa.Call)
+			idx = ex.Index
+		} else {
+			call = t.(*ssa.Call)
+		}
+		if call == nil || call.Call.StaticCallee() == nil || !g.p.InModule(call.Call.StaticCallee()) {
+			return nil, fmt.Errorf("decoded document comes from a call that cannot be followed")
+		}
+		h := call.Call.StaticCallee()
+		var doc *ssa.Alloc
+		for _, b := range h.Blocks {
+			ret, ok := b.Instrs[len(b.Instrs)-1].(*ssa.Return)
+			if !ok || idx >= len(ret.Results) {
+				continue
+			}
+			ld, ok := ret.Results[idx].(*ssa.UnOp)
+			if !ok || ld.Op != token.MUL {
+				return nil, fmt.Errorf("%s: the loader does not return its decoded document", g.p.pos(ret.Pos()))
+			}
+			al, ok := ld.X.(*ssa.Alloc)
+			if !ok || (doc != nil && doc != al) {
+				return nil, fmt.Errorf("%s: the loader does not return its decoded document", g.p.pos(ret.Pos()))
+			}
+			doc = al
+		}
+		if doc == nil {
+			return nil, fmt.Errorf("the loader returns no document")
+		}
+		return doc, nil
+	}
+	return nil, fmt.Errorf("decoded document is not a local variable")
+}
+
 func (g *genModel) decodedFrom(doc *ssa.Alloc) (string, error) {
 	var file string
 	found := false
@@ -917,6 +1046,8 @@ func (g *genModel) decodedFrom(doc *ssa.Alloc) (string, error) {
 				}
 			}
 		case *ssa.DebugRef:
+		case *ssa.UnOp:
+			// read as a whole (returned or passed by value): reads do not change what was decoded
 		default:
 			return "", fmt.Errorf("decoded document used by %T", r)
 		}
